@@ -1,3 +1,222 @@
-(* LazyProofs — see docs/ for the plan of this file. *)
+(* LazyProofs — the `lazy` flag of lookupByPath does not influence the selected
+   (node, tsr); the modelling-artifact LPanic of PBack is unreachable; fuel monotonicity.
+   See docs/C01_lazy.md. *)
 From FoxBase Require Import Bytes.
-From FoxRoute Require Import Node Lookup Spec Tree.
+From FoxRoute Require Import Node Lookup.
+Require Import Lia.
+Open Scope char_scope.
+
+(* ---------- relation between the lazy and the non-lazy state ---------- *)
+Definition zsk (k : skipped) : skipped :=
+  {| sk_n := sk_n k; sk_path := sk_path k; sk_pcnt := 0; sk_child := sk_child k |}.
+
+(* the lazy-side state that corresponds to the non-lazy state [sn]: same control
+   variables, paramCnt = 0, every saved paramCnt = 0, params / tsrParams arbitrary *)
+Definition lz (sn : st) (p tp : list kv) : st :=
+  {| cur := cur sn; par := par sn; cm := cm sn; cmn := cmn sn; pcnt := 0; pkc := pkc sn;
+     sks := map zsk (sks sn); ps := p; tsr := tsr sn; tn := tn sn; tps := tp |}.
+
+Definition lazy_rel (sl sn : st) : Prop :=
+  cur sl = cur sn /\ par sl = par sn /\ cm sl = cm sn /\ cmn sl = cmn sn /\ pkc sl = pkc sn /\
+  tsr sl = tsr sn /\ tn sl = tn sn /\ pcnt sl = 0 /\ sks sl = map zsk (sks sn).
+
+Lemma lazy_rel_lz sl sn : lazy_rel sl sn -> sl = lz sn (ps sl) (tps sl).
+Proof.
+  destruct sl, sn; unfold lazy_rel, lz; cbn.
+  intros (-> & -> & -> & -> & -> & -> & -> & -> & ->); reflexivity.
+Qed.
+
+Lemma lz_lazy_rel sn p tp : lazy_rel (lz sn p tp) sn.
+Proof. unfold lazy_rel, lz; cbn; repeat split; reflexivity. Qed.
+
+(* ---------- result relation ---------- *)
+Definition strong_rel (rl rn : lres) : Prop :=
+  match rl, rn with
+  | Found n t _ _, Found n' t' _ _ => n = n' /\ t = t'
+  | LPanic, LPanic => True
+  | LOutOfFuel, LOutOfFuel => True
+  | _, _ => False
+  end.
+
+(* ---------- invariant of the non-lazy run: paramCnt and the saved paramCnts never
+   exceed len(params); the saved counts decrease down the stack ---------- *)
+Fixpoint chain (k : nat) (l : list skipped) : Prop :=
+  match l with [] => True | sk :: r => sk_pcnt sk <= k /\ chain (sk_pcnt sk) r end.
+
+Lemma chain_mono k k' l : k <= k' -> chain k l -> chain k' l.
+Proof. destruct l; cbn; intuition lia. Qed.
+
+Definition Inv (ph : phase) (s : st) : Prop :=
+  match ph with
+  | PBack => chain (List.length (ps s)) (sks s)
+  | _ => pcnt s <= List.length (ps s) /\ chain (pcnt s) (sks s)
+  end.
+
+Definition out (rl rn : lres) (ph : phase) (sn : st) : Prop :=
+  strong_rel rl rn \/ (rn = LPanic /\ ~ Inv ph sn).
+
+Lemma relax rl rn ph sn ph' sn' :
+  (Inv ph sn -> Inv ph' sn') -> out rl rn ph' sn' -> out rl rn ph sn.
+Proof. unfold out; intuition. Qed.
+
+(* ---------- tactics ---------- *)
+Ltac dm :=
+  match goal with
+  | |- context[match ?x with _ => _ end] =>
+      lazymatch x with
+      | context[match _ with _ => _ end] => fail
+      | _ => destruct x eqn:?
+      end
+  end.
+
+Ltac red_st :=
+  cbn [lz cur par cm cmn pcnt pkc sks ps tsr tn tps set_tsr push descend init_st par_is_leaf
+       dpush dgo map zsk sk_n sk_path sk_pcnt sk_child lookup_by_path] in *.
+
+Ltac dms := repeat (dm; red_st; try congruence).
+
+Ltac inv_solve :=
+  cbn [Inv chain cur par cm cmn pcnt pkc sks ps tsr tn tps sk_pcnt List.length
+       set_tsr push descend dpush dgo init_st];
+  intros; rewrite ?app_length, ?firstn_length; cbn [List.length];
+  repeat match goal with H : _ /\ _ |- _ => destruct H end;
+  repeat split; try lia; try (eapply chain_mono; [|eassumption]; lia); try assumption.
+
+Ltac leaf IH :=
+  lazymatch goal with
+  | |- out (Found _ _ _ _) (Found _ _ _ _) _ _ => left; cbn; auto
+  | |- out LPanic LPanic _ _ => left; exact I
+  | |- out LOutOfFuel LOutOfFuel _ _ => left; exact I
+  | |- out (lbp _ _ true ?ph' ?sl') (lbp _ _ false ?ph' ?sn') _ _ =>
+      eapply relax; [ | exact (IH ph' sn' (ps sl') (tps sl')) ]; inv_solve
+  end.
+
+(* ---------- the simulation ---------- *)
+Lemma lbp_sim path : forall f ph sn p tp,
+  out (lbp f path true ph (lz sn p tp)) (lbp f path false ph sn) ph sn.
+Proof.
+  induction f as [|f IH]; intros ph sn p tp.
+  - left; exact I.
+  - destruct sn as [c pa m mn pc k sk psn t n tpsn].
+    destruct ph; cbn [lbp]; red_st.
+    + (* PWalk *) dms; leaf IH.
+    + (* PInner *) dms; leaf IH.
+    + (* PSelect *) dms; leaf IH.
+    + (* PAfter *) dms; leaf IH.
+    + (* PBack *)
+      destruct sk as [|s0 rest]; red_st.
+      * left; cbn; auto.
+      * change (Nat.ltb (List.length p) 0) with false; cbv iota.
+        dms; try leaf IH.
+        right; split; [reflexivity|].
+        cbn [Inv chain ps sks]; intros [H _].
+        match goal with E : Nat.ltb _ _ = true |- _ => apply Nat.ltb_lt in E; lia end.
+    + (* PCatch *) dms; leaf IH.
+Qed.
+
+(* ---------- consequences for lookupByPath ---------- *)
+
+(* (1) forward simulation, from arbitrary related states, no invariant needed *)
+Theorem lbp_lazy_irrelevant : forall f path ph sl sn, lazy_rel sl sn ->
+  match lbp f path false ph sn with
+  | Found n t _ _ => exists p tp, lbp f path true ph sl = Found n t p tp
+  | LOutOfFuel => lbp f path true ph sl = LOutOfFuel
+  | LPanic => True
+  end.
+Proof.
+  intros f path ph sl sn R. rewrite (lazy_rel_lz _ _ R).
+  destruct (lbp_sim path f ph sn (ps sl) (tps sl)) as [H|[H _]]; [|rewrite H; exact I].
+  destruct (lbp f path false ph sn), (lbp f path true ph (lz sn (ps sl) (tps sl)));
+    cbn in H; try contradiction; try exact I; try reflexivity.
+  destruct H as [-> ->]; eauto.
+Qed.
+
+(* the converse without the invariant: the only way to differ is the PBack guard *)
+Theorem lbp_lazy_irrelevant_conv : forall f path ph sl sn, lazy_rel sl sn ->
+  match lbp f path true ph sl with
+  | Found n t _ _ => (exists p tp, lbp f path false ph sn = Found n t p tp) \/ lbp f path false ph sn = LPanic
+  | LOutOfFuel => lbp f path false ph sn = LOutOfFuel \/ lbp f path false ph sn = LPanic
+  | LPanic => lbp f path false ph sn = LPanic
+  end.
+Proof.
+  intros f path ph sl sn R. rewrite (lazy_rel_lz _ _ R).
+  destruct (lbp_sim path f ph sn (ps sl) (tps sl)) as [H|[H _]].
+  - destruct (lbp f path false ph sn), (lbp f path true ph (lz sn (ps sl) (tps sl)));
+      cbn in H; try contradiction; auto.
+    destruct H as [-> ->]; eauto.
+  - rewrite H. destruct (lbp f path true ph (lz sn (ps sl) (tps sl))); auto.
+Qed.
+
+(* (2) under the invariant the two runs correspond exactly *)
+Theorem lbp_lazy_strong : forall f path ph sl sn, lazy_rel sl sn -> Inv ph sn ->
+  strong_rel (lbp f path true ph sl) (lbp f path false ph sn).
+Proof.
+  intros f path ph sl sn R I. rewrite (lazy_rel_lz _ _ R).
+  destruct (lbp_sim path f ph sn (ps sl) (tps sl)) as [H|[_ H]]; [exact H|contradiction].
+Qed.
+
+Theorem lbp_lazy_irrelevant_iff : forall f path ph sl sn, lazy_rel sl sn -> Inv ph sn ->
+  (forall n t, (exists p tp, lbp f path true ph sl = Found n t p tp) <->
+               (exists p tp, lbp f path false ph sn = Found n t p tp)) /\
+  (lbp f path true ph sl = LPanic <-> lbp f path false ph sn = LPanic) /\
+  (lbp f path true ph sl = LOutOfFuel <-> lbp f path false ph sn = LOutOfFuel).
+Proof.
+  intros f path ph sl sn R I. pose proof (lbp_lazy_strong f path ph sl sn R I) as H.
+  destruct (lbp f path true ph sl), (lbp f path false ph sn); cbn in H; try contradiction;
+    try destruct H as [-> ->];
+    (split; [intros n' t'; split; intros (p & tp & E); try discriminate; inversion E; subst; eauto
+            | split; split; intros E; try discriminate; reflexivity ]).
+Qed.
+
+(* the artifact branch of PBack ([:k] beyond len) is not the cause of any LPanic of a run that
+   starts in a state satisfying the invariant: the lazy run, whose guard is `len < 0`, panics too *)
+Theorem lbp_panic_genuine : forall f path ph sn, Inv ph sn ->
+  lbp f path false ph sn = LPanic -> forall p tp, lbp f path true ph (lz sn p tp) = LPanic.
+Proof.
+  intros f path ph sn I E p tp.
+  pose proof (lbp_lazy_strong f path ph _ sn (lz_lazy_rel sn p tp) I) as H. rewrite E in H.
+  destruct (lbp f path true ph (lz sn p tp)); cbn in H; try contradiction; reflexivity.
+Qed.
+
+Lemma Inv_init : forall c ps0 tps0, Inv PWalk (init_st c ps0 tps0).
+Proof. intros; cbn; split; [lia|exact I]. Qed.
+
+Theorem lookup_by_path_lazy_irrelevant : forall f c path ps0 tps0 ps1 tps1,
+  strong_rel (lookup_by_path f c path true ps0 tps0) (lookup_by_path f c path false ps1 tps1).
+Proof.
+  intros. unfold lookup_by_path. apply lbp_lazy_strong; [|apply Inv_init].
+  unfold lazy_rel; cbn; repeat split; reflexivity.
+Qed.
+
+(* ---------- (4) fuel monotonicity ---------- *)
+Ltac dmf IH :=
+  first
+  [ match goal with
+    | |- context[match lbp (?f + ?k) ?pa ?lz ?ph ?s with _ => _ end] =>
+        let E := fresh "E" in
+        destruct (IH pa lz k ph s) as [E|E]; rewrite E; [cbv iota; left; reflexivity|]
+    end
+  | dm ].
+
+Lemma lbp_fuel_le : forall f path lazy k ph s,
+  lbp f path lazy ph s = LOutOfFuel \/ lbp (f + k) path lazy ph s = lbp f path lazy ph s.
+Proof.
+  induction f as [|f IH]; intros path lazy k ph s; [left; reflexivity|].
+  destruct s as [c pa m mn pc kk sk psn t n tpsn].
+  destruct ph; cbn [Nat.add lbp]; red_st;
+    repeat (dmf IH; red_st; try congruence);
+    solve [ apply IH | right; reflexivity ].
+Qed.
+
+Theorem lbp_fuel_mono : forall f k path lazy ph s,
+  lbp f path lazy ph s <> LOutOfFuel -> lbp (f + k) path lazy ph s = lbp f path lazy ph s.
+Proof. intros f k path lazy ph s H. destruct (lbp_fuel_le f path lazy k ph s); tauto. Qed.
+
+Corollary lbp_fuel_mono_le : forall f f' path lazy ph s, f <= f' ->
+  lbp f path lazy ph s <> LOutOfFuel -> lbp f' path lazy ph s = lbp f path lazy ph s.
+Proof. intros f f' path lazy ph s L H. replace f' with (f + (f' - f)) by lia. apply lbp_fuel_mono, H. Qed.
+
+Theorem lookup_by_path_fuel_mono : forall f k c path lazy ps0 tps0,
+  lookup_by_path f c path lazy ps0 tps0 <> LOutOfFuel ->
+  lookup_by_path (f + k) c path lazy ps0 tps0 = lookup_by_path f c path lazy ps0 tps0.
+Proof. intros; unfold lookup_by_path in *; apply lbp_fuel_mono; assumption. Qed.
